@@ -69,8 +69,9 @@ func (t *Tree) write(sb *strings.Builder) {
 
 // Diff returns "" when a and b are canonically equal, else the path class of
 // the first difference, made order- and nesting-independent: it starts at the
-// innermost typed value or embedded struct that contains the difference
-// (e.g. "<lime.DocumentCollection>.Total", "Envelope.PP.Identity.Name"), with
+// innermost typed value that contains the difference, or at the embedded base
+// struct directly inside it (e.g. "<lime.DocumentCollection>.Total",
+// "Envelope.PP.Identity.Name" for every envelope kind), with
 // slice positions written "[]" and map keys "{}".
 func Diff(a, b *Tree) string {
 	if equal(a, b) {
@@ -82,9 +83,15 @@ func Diff(a, b *Tree) string {
 	}
 	start := 0
 	for i, s := range p {
-		if strings.HasPrefix(s, "<") || strings.HasPrefix(s, "^") {
+		if strings.HasPrefix(s, "<") {
 			start = i
 		}
+	}
+	// skip to the last of the embedded structs that directly follow the type
+	// marker: <lime.Message>^Envelope.PP... and <lime.RequestCommand>^Command^Envelope.PP...
+	// both become Envelope.PP...
+	for start+1 < len(p) && strings.HasPrefix(p[start+1], "^") {
+		start++
 	}
 	out := strings.Join(p[start:], "")
 	return strings.TrimPrefix(strings.ReplaceAll(out, "^", "."), ".")
